@@ -149,8 +149,8 @@ def k_svd(ctx, spec):
     a, axes = _prep(ctx, rng, spec, a, axes)
     sU, nU = spec['sU'], spec['nU']
     nl, nr = len(axes[0]), len(axes[1])
-    Uaxis = rng.choice([-1, -1, 0, rng.randint(0, nl)])
-    Vaxis = rng.choice([0, 0, -1, rng.randint(0, nr)])
+    Uaxis = rng.choice([-1, 0, rng.randint(-(nl + 1), nl), rng.randint(-(nl + 1), nl)])
+    Vaxis = rng.choice([0, -1, rng.randint(-(nr + 1), nr), rng.randint(-(nr + 1), nr)])
     U, S, V = yastn.linalg.svd(a, axes=axes, sU=sU, nU=nU, Uaxis=Uaxis, Vaxis=Vaxis)
     symid = cfg.sym.SYM_ID
     zero = cfg.sym.zero()
@@ -216,8 +216,8 @@ def k_qr(ctx, spec):
     ndiag = sum(min(D) for D in _merged_block_dims(a, axes))
     if ndiag > (5 if spec['tier'] == 'quick' else 7):
         ctx.skip(f'{ndiag} diagonal elements of R: sign-fork bound exceeded')
-    Qaxis = rng.choice([-1, -1, 0, rng.randint(0, nl)])
-    Raxis = rng.choice([0, 0, -1, rng.randint(0, nr)])
+    Qaxis = rng.choice([-1, 0, rng.randint(-(nl + 1), nl), rng.randint(-(nl + 1), nl)])
+    Raxis = rng.choice([0, -1, rng.randint(-(nr + 1), nr), rng.randint(-(nr + 1), nr)])
     Q, R = yastn.linalg.qr(a, axes=axes, sQ=sQ, Qaxis=Qaxis, Raxis=Raxis)
     zero = cfg.sym.zero()
     wellformed(ctx, Q, 'qr:Q', expect_n=a.n)
@@ -270,7 +270,7 @@ def k_eigh(ctx, spec):
             nfork *= j * (2 if which in ('SM', 'LM') else 1)
     if which != 'SR' and nfork > (300 if spec['tier'] == 'quick' else 3000):
         ctx.skip('eigenvalue-ordering fork bound exceeded')
-    Uaxis = rng.choice([-1, -1, 0, rng.randint(0, nl)])
+    Uaxis = rng.choice([-1, 0, rng.randint(-(nl + 1), nl), rng.randint(-(nl + 1), nl)])
     S, U = yastn.linalg.eigh(a, axes=axes, sU=sU, Uaxis=Uaxis, which=which)
     zero = cfg.sym.zero()
     wellformed(ctx, U, 'eigh:U', expect_n=zero)
